@@ -42,12 +42,13 @@ theorem pivotsOK_iff (n : Nat) (A : Mat ℝ) : pivotsOK n A = true ↔ Pivots n 
   unfold pivotsOK Pivots
   simp [List.all_eq_true]
 
-theorem inv_run (n : Nat) (A : Mat ℝ) (hs : ∀ i j, i < n → j < n → A i j = A j i) (hp : Pivots n A) :
-    ∀ k, k ≤ n → Inv n A k (run n A k).1 (run n A k).2 := by
+/-- the invariant after `k` steps needs the pivots below `k` only -/
+theorem inv_run_upto (n : Nat) (A : Mat ℝ) (hs : ∀ i j, i < n → j < n → A i j = A j i) :
+    ∀ k, k ≤ n → (∀ m, m < k → 0 < (run n A m).1 m m) → Inv n A k (run n A k).1 (run n A k).2 := by
   intro k
   induction k with
   | zero =>
-    intro _
+    intro _ _
     refine ⟨hs, ?_, ?_, ?_, ?_, ?_⟩
     · intro i j _ _ h; omega
     · intro i j _ _; simp [run]
@@ -55,10 +56,10 @@ theorem inv_run (n : Nat) (A : Mat ℝ) (hs : ∀ i j, i < n → j < n → A i j
     · intro i c _; simp [run]
     · intro c h; omega
   | succ k ih =>
-    intro hk
+    intro hk hp
     have hkn : k < n := hk
-    have I := ih (Nat.le_of_lt hkn)
-    have hpk := hp k hkn
+    have I := ih (Nat.le_of_lt hkn) (fun m hm => hp m (by omega))
+    have hpk := hp k (by omega)
     set R := (run n A k).1 with hR
     set L := (run n A k).2 with hL
     have hd : 0 < Real.sqrt (R k k) := Real.sqrt_pos.mpr hpk
@@ -115,6 +116,10 @@ theorem inv_run (n : Nat) (A : Mat ℝ) (hs : ∀ i j, i < n → j < n → A i j
       split
       · next h => subst h; rw [colk]; exact hd
       · exact I.diag c (by omega)
+
+theorem inv_run (n : Nat) (A : Mat ℝ) (hs : ∀ i j, i < n → j < n → A i j = A j i) (hp : Pivots n A) :
+    ∀ k, k ≤ n → Inv n A k (run n A k).1 (run n A k).2 :=
+  fun k hk => inv_run_upto n A hs k hk (fun m hm => hp m (by omega))
 
 /-- **Cholesky specification.**  For a symmetric `A` with positive pivots, `L = cholesky n A` is lower
 triangular, has a positive diagonal, and `Σ_c L i c · L j c = A i j` on the `n × n` block. -/
